@@ -728,7 +728,35 @@ def F1(m, R):
         from ..shapes import subst as _subst
         inner_test = _subst(inner.test, local_aliases(f))
         ords = {norm(x) for x in ast.walk(inner_test) if isinstance(x, ast.Call) and call_name(x) == 'ord'}
-        if len(ords) != 1:
+        memb = [x for x in ast.walk(inner_test) if isinstance(x, ast.Compare) and len(x.ops) == 1 and isinstance(x.ops[0], (ast.In, ast.NotIn)) and
+                re.match(r'^%s\[\w+\]$' % re.escape(s), norm(x.left))]
+        if not ords and len(memb) == 1:
+            # the scan decided by membership of the character in a collection of characters: `s[i] not in CHARS`
+            coll = memb[0].comparators[0]
+            val = None
+            try:
+                for modn in ('ansi_parsing', 'ansi_format'):
+                    if isinstance(coll, ast.Name) and m.const(modn, coll.id) is not None:
+                        val = F.fold(m.const(modn, coll.id))
+                        break
+                else:
+                    val = F.fold(coll)
+            except Unfoldable:
+                val = None
+            # the scan continues while `<in range> and <not a final byte>`: the membership atom must be the negative one
+            cont_on_notin = isinstance(memb[0].ops[0], ast.NotIn)
+            par_ = getattr(memb[0], '_parent', None)
+            if isinstance(par_, ast.UnaryOp) and isinstance(par_.op, ast.Not):
+                cont_on_notin = not cont_on_notin
+            if isinstance(val, (frozenset, set, list, tuple, str)) and all(isinstance(c_, str) and len(c_) == 1 for c_ in val) and cont_on_notin:
+                pts = {ord(c_) for c_ in val}
+                wantset = set(range(0x40, 0x7F))
+                R.check(pts == wantset, f, inner, 'the parameter scan continues exactly on characters outside chr(0x40) .. chr(0x7E)',
+                        'the parameter scan stops on %s; a final byte is 0x40..0x7E inclusive%s' % (
+                            _fmt_class(pts), ': 0x7E ("~") is missing -- range() excludes its upper bound' if wantset - pts == {0x7E} else ''), construct=cons)
+            else:
+                R.undecided(f, inner, 'scan test %s' % short(inner.test), construct=cons)
+        elif len(ords) != 1:
             R.undecided(f, inner, 'scan test %s' % short(inner.test), construct=cons)
         else:
             x = next(iter(ords))
